@@ -264,11 +264,41 @@ func c16Run(c *vh.Ctx, r *vh.Rng, k int, root string, cases, impl *[]string, inp
 			}
 		}
 	}
+	dayOf := map[int]*dayRec{}
+	for i := range days {
+		dayOf[days[i].Zeit] = &days[i]
+	}
+	// how the harvest of entry i came / should have come about: fixed (date of the rotation file), trigger
+	// (automatic harvest conditions met), forced (emerged crop on the eve of its latest harvest date), not-emerged
+	harvestClass := func(i int) string {
+		if !autoHar {
+			return "fixed"
+		}
+		eve := expE2i(expE[i], expE2[i]) - 1
+		if z := harDay[i]; z > 0 {
+			if d := dayOf[z]; d != nil && d.Ernte == 0 && d.ErnteCur1 == z {
+				return "trigger"
+			}
+			eve = z - 1
+		}
+		if d := dayOf[eve]; d != nil && d.AKF == i {
+			if d.Emerged {
+				return "forced"
+			}
+			return "not-emerged"
+		}
+		return "unknown"
+	}
 	nHarv := 0
+	chain := true // every earlier entry inside the premise, sown and harvested: entry i gets its turn
 	for i := 1; i < nRot; i++ {
 		c.Eval()
 		crop := p.Rot[i].Crop
 		a := table[crop]
+		pos := "middle"
+		if i == nRot-1 {
+			pos = "last"
+		}
 		if sowDay[i] > 0 || harDay[i] > 0 {
 			c.Nontrivial(fmt.Sprintf("%s/%d", name, i))
 		}
@@ -328,7 +358,15 @@ func c16Run(c *vh.Ctx, r *vh.Rng, k int, root string, cases, impl *[]string, inp
 					c.Violate("search", "harvest:after-latest-date", fmt.Sprintf("entry %d (%s): harvested on day %d, configured latest harvest day %d", i, crop, z, latest), replay)
 				}
 			}
-			// crop record
+			c.Count("harvested:" + harvestClass(i))
+			if c16IsLate(p.Rot[i]) {
+				c.Count("late-sown-entry:harvested:" + harvestClass(i) + ":" + pos)
+			}
+			// crop record (one per harvested rotation entry, in rotation order — also C05's statement, which has no
+			// automatic management in its own generator)
+			if nHarv > len(recs) {
+				c.Violate("search", "record:missing:"+harvestClass(i), fmt.Sprintf("rotation entry %d (%s) harvested on day %d (%s harvest) has no record in the crop file: %d records for %d harvested entries so far", i, crop, z, harvestClass(i), len(recs), nHarv), replay)
+			}
 			if nHarv <= len(recs) {
 				f := strings.Split(recs[nHarv-1], ",")
 				code, hy := strings.TrimSpace(f[0]), strings.TrimSpace(f[2])
@@ -341,12 +379,17 @@ func c16Run(c *vh.Ctx, r *vh.Rng, k int, root string, cases, impl *[]string, inp
 					c.Violate("search", "record:sowing-date", fmt.Sprintf("crop record %d: sowing date %q, sown on %s", nHarv, f[1], dotted(sowDay[i], format)), replay)
 				}
 			}
-		} else if sowDay[i] > 0 && premise[i] {
+		} else if sowDay[i] > 0 && premise[i] && chain {
+			// sown inside the simulated period, latest harvest date inside it: the entry must be harvested, the
+			// rotation must move on and the crop file must get its record
 			latest := expE2i(expE[i], expE2[i])
 			if latest <= lastDay && sowDay[i] < latest-1 {
-				c.Violate("search", "harvest:missed:"+sw, fmt.Sprintf("entry %d (%s) sown on day %d was not harvested by its latest harvest day %d (run lasts until %d)", i, crop, sowDay[i], latest, lastDay), replay)
+				cls := harvestClass(i)
+				c.Violate("search", "rotation:entry-never-harvested:"+cls, fmt.Sprintf("entry %d (%s, %s of the rotation) sown on day %d was not harvested by its latest harvest day %d (%s on the eve; run lasts until %d): no crop record, the rotation never moves on, %d later entries are lost", i, crop, pos, sowDay[i], latest, cls, lastDay, nRot-1-i), replay)
+				c.Violate("search", "record:missing:"+cls, fmt.Sprintf("rotation entry %d (%s) sown on day %d with latest harvest day %d inside the simulated period has no record in the crop file (%d records)", i, crop, sowDay[i], latest, len(recs)), replay)
 			}
 		}
+		chain = chain && premise[i] && sowDay[i] > 0 && harDay[i] > 0
 	}
 	skipped := 0
 	for _, rl := range recs {
@@ -354,8 +397,8 @@ func c16Run(c *vh.Ctx, r *vh.Rng, k int, root string, cases, impl *[]string, inp
 			skipped++
 		}
 	}
-	if len(recs)-skipped != nHarv && skipped == 0 {
-		c.Violate("search", "record:count", fmt.Sprintf("%d crop records for %d harvested rotation entries", len(recs), nHarv), replay)
+	if len(recs)-skipped > nHarv && skipped == 0 {
+		c.Violate("search", "record:extra", fmt.Sprintf("%d crop records for %d harvested rotation entries", len(recs), nHarv), replay)
 	}
 	if k < 2 {
 		c.Sample(map[string]interface{}{"run": name, "switches": sw, "rotation": p.Rot, "sown_on": sowDay[:nRot], "harvested_on": harDay[:nRot], "windows_from": expS1, "windows_to": expS2, "latest_harvest": expE2, "records": recs})
@@ -379,7 +422,6 @@ func c16Prepare(r *vh.Rng, p *proj.Project, k, format int) *c16Case {
 	p.Cfg["AutoSowingHarvest"], p.Cfg["AutoHarvest"], p.Cfg["AutoIrrigation"], p.Cfg["AutoFertilization"] = onOffSch(autoMan), onOffSch(autoHar), onOffSch(autoIrr), onOffSch(autoFert)
 	sw := fmt.Sprintf("man%s-har%s-irr%s-fert%s", onOffSch(autoMan), onOffSch(autoHar), onOffSch(autoIrr), onOffSch(autoFert))
 	annD, annM := r.Range(1, 28), r.Range(1, 12)
-	p.SetFormat(format, end, annD, annM)
 	s0 := start.Z()
 	if autoMan || autoHar {
 		p.Til = nil // tillage between (moved) sowing and harvest dates would reject the run
@@ -406,6 +448,23 @@ func c16Prepare(r *vh.Rng, p *proj.Project, k, format int) *c16Case {
 		table[cc.Code] = a
 		entries = append(entries, a)
 	}
+	end = c16InsertLateEntries(r, p, end, table, autoMan, autoHar)
+	entries = c16LateRows(r, p, table, entries)
+	// tillage of the generator may now lie under an inserted crop (the run would be rejected, nitro.go)
+	var til []proj.TilEv
+	for _, e := range p.Til {
+		ok := true
+		for i := 1; i < len(p.Rot); i++ {
+			if z := e.Date.Z(); z+2 > p.Rot[i].Sow.Z() && z <= p.Rot[i].Harvest.Z() {
+				ok = false
+			}
+		}
+		if ok {
+			til = append(til, e)
+		}
+	}
+	p.Til = til
+	p.SetFormat(format, end, annD, annM)
 	if autoFert {
 		for i := range p.Rot {
 			if r.Chance(0.2) {
@@ -414,6 +473,134 @@ func c16Prepare(r *vh.Rng, p *proj.Project, k, format int) *c16Case {
 		}
 	}
 	return &c16Case{AutoMan: autoMan, AutoHar: autoHar, AutoIrr: autoIrr, AutoFert: autoFert, Sw: sw, Format: format, S0: s0, Table: table, Entries: entries}
+}
+
+// catch crops with shipped parameter files (PARAM.OEL/ORH/SE) besides the main crops of proj.Crops
+var c16CatchCrops = []string{"OEL", "ORH", "SE"}
+
+func c16Cold(d proj.Date) bool { return d.M >= 11 || d.M <= 2 }
+
+// c16IsLate: a rotation entry sown only a few weeks before its (latest) harvest date.
+func c16IsLate(e proj.RotEntry) bool { return e.Harvest.Z()-e.Sow.Z() <= 30 }
+
+// c16InsertLateEntries puts entries into the rotation that are sown 5-25 days before their latest harvest
+// date in the cold season (a catch crop or a main crop not used elsewhere in the rotation, each with its
+// own crop code): in gaps in the middle of the rotation and behind its last entry (the end date is moved
+// if necessary). Such a crop has usually not emerged on the eve of its latest harvest date. The windows
+// of the neighbours stay outside the new entry (the property's premise).
+func c16InsertLateEntries(r *vh.Rng, p *proj.Project, end proj.Date, table map[string]proj.AutoEntry, autoMan, autoHar bool) proj.Date {
+	used := map[string]bool{}
+	for _, e := range p.Rot {
+		used[e.Crop] = true
+	}
+	var codes []string
+	for _, cd := range c16CatchCrops {
+		codes = append(codes, cd)
+	}
+	for _, cc := range proj.Crops {
+		if !used[cc.Code] && r.Chance(0.3) {
+			codes = append(codes, cc.Code)
+		}
+	}
+	for i := len(codes) - 1; i > 0; i-- {
+		j := r.Intn(i + 1)
+		codes[i], codes[j] = codes[j], codes[i]
+	}
+	latestOf := func(e proj.RotEntry, first bool) int { // latest harvest day of an existing entry
+		z := e.Harvest.Z()
+		if first || !autoHar {
+			return z
+		}
+		if a := table[e.Crop]; a.Har2M != 0 {
+			if l := (proj.Date{Y: e.Harvest.Y, M: a.Har2M, D: a.Har2D}).Z(); l > z {
+				return l
+			}
+		}
+		return z
+	}
+	openOf := func(e proj.RotEntry) int { // first day of the sowing window of an existing entry
+		z := e.Sow.Z()
+		if autoMan {
+			if a := table[e.Crop]; a.Sow1M != 0 {
+				if o := (proj.Date{Y: e.Sow.Y, M: a.Sow1M, D: a.Sow1D}).Z(); o < z {
+					return o
+				}
+			}
+		}
+		return z
+	}
+	weatherEnd := proj.Date{Y: end.Y + 1, M: 11, D: 30}.Z()
+	var out []proj.RotEntry
+	n := len(p.Rot)
+	for i := 0; i < n; i++ {
+		out = append(out, p.Rot[i])
+		if len(codes) == 0 || !r.Chance(0.45) {
+			continue
+		}
+		lo := latestOf(p.Rot[i], i == 0) + 7
+		hi := weatherEnd
+		if i+1 < n {
+			hi = openOf(p.Rot[i+1]) - 7
+		}
+		// the cold days of the gap that leave room for 5..25 days of growth
+		var cand []int
+		for z := lo; z+6 <= hi && z < lo+400; z++ {
+			if d := proj.FromZ(z); c16Cold(d) && !(d.M == 2 && d.D > 20) && !(d.M == 12 && d.D > 26) && !(d.M == 1 && d.D < 6) {
+				cand = append(cand, z)
+			}
+		}
+		if len(cand) == 0 {
+			continue
+		}
+		s := cand[r.Intn(len(cand))]
+		l := s + r.Range(5, 25)
+		if l > hi {
+			l = hi
+		}
+		out = append(out, proj.RotEntry{Crop: codes[0], Sow: proj.FromZ(s), Harvest: proj.FromZ(l), Rex: r.Intn(100)})
+		codes = codes[1:]
+		if i+1 == n && l+3 > end.Z() {
+			end = proj.FromZ(l + r.Range(3, 30))
+		}
+	}
+	p.Rot = out
+	return end
+}
+
+// c16LateRows writes the automan.txt rows of the late-sown entries: sowing fixed ("0000") or a window of a
+// few days around the sowing date that ends at least five days before the latest harvest date; latest
+// harvest date = the harvest date of the rotation file ("0000" or its day and month).
+func c16LateRows(r *vh.Rng, p *proj.Project, table map[string]proj.AutoEntry, entries []proj.AutoEntry) []proj.AutoEntry {
+	for i := 1; i < len(p.Rot); i++ {
+		e := p.Rot[i]
+		if !c16IsLate(e) {
+			continue
+		}
+		a := genAutoEntry(r, proj.CropCal{Code: e.Crop, SowM: e.Sow.M, SowD: e.Sow.D, HarM: e.Harvest.M, HarD: e.Harvest.D, Winter: true})
+		a.TAccu = 0
+		a.Sow1M, a.Sow1D, a.Sow2M, a.Sow2D = 0, 0, 0, 0
+		if r.Chance(0.5) {
+			s1, s2 := e.Sow.AddDays(-r.Intn(5)), e.Sow.AddDays(r.Intn(3))
+			if s1.Y == e.Sow.Y && s2.Y == e.Sow.Y && s2.Z()+5 <= e.Harvest.Z() {
+				a.Sow1M, a.Sow1D, a.Sow2M, a.Sow2D = s1.M, s1.D, s2.M, s2.D
+			}
+		}
+		a.Har2M, a.Har2D = 0, 0
+		if r.Chance(0.5) {
+			a.Har2M, a.Har2D = e.Harvest.M, e.Harvest.D
+		}
+		if _, ok := table[e.Crop]; ok {
+			for j := range entries {
+				if entries[j].Crop == e.Crop {
+					entries[j] = a
+				}
+			}
+		} else {
+			entries = append(entries, a)
+		}
+		table[e.Crop] = a
+	}
+	return entries
 }
 
 // c16Exp: the rotation arrays the rotation file and automan.txt configure, and the property's premise per entry.
